@@ -2059,11 +2059,13 @@ class ImportManager:
     # would bind it (recorded by a file without the feature) gets an alias.
     self.names = {'gin'} if self.dynamic_registration else set()
     # `__gin__` feature statements first (they must never be re-aliased), then
-    # by module, preferring to order `from` style imports first.
+    # by module, preferring to order `from` style imports first. The alias
+    # breaks remaining ties, so that the result does not depend on the order in
+    # which `imports` (usually a set) yields its elements.
     for statement in sorted(
         imports,
         key=lambda s: (not s.module.startswith('__gin__.'), s.module,
-                       not s.is_from)):
+                       not s.is_from, s.alias or '')):
       self.add_import(statement)
 
   @property
